@@ -234,7 +234,7 @@ def explore(pb, rec, feats, wbase, b, res):
     if got0 != rs0:
         viol("initial-state-values", f"initial state differs: expected {seqsem.show_state(rs0)}, got {seqsem.show_state(got0)}", expected=seqsem.show_state(rs0), observed=seqsem.show_state(got0))
         return
-    if b.get("walk") and int(pid, 16) % 3 == 0:
+    if b.get("walk"):
         long_walk(pb, sim, ls0, rs0, gfl, insts, b["walk"], rng_for(pid, "walk"), res, viol)
     sampled = False
     seen = {seqsem.freeze(rs0)}
